@@ -79,6 +79,8 @@ def plain(v):
 
 
 def sci(v):
+    if v == 0:
+        return '0'                # Excel never stores a zero as 0E+0
     d = Decimal(repr(float(v)) if not isinstance(v, int) else str(v))
     sign, digits, exp = d.normalize().as_tuple()
     assert sign == 0
